@@ -1829,6 +1829,8 @@ def _range(I: Interp, args: list[V], kwargs: dict[str, V]) -> V:
     else:
         start, stop = ts[0], ts[1]
         if cs[2] is None:
+            cs[2] = I.concrete_value(ts[2])  # a step the path condition fixes
+        if cs[2] is None:
             raise Unsupported("range with symbolic step")
         step = cs[2]
     if step <= 0:
